@@ -315,7 +315,7 @@ def run(ctx: Ctx):
     optional_model_loads(ctx, eng, ctx.budget(40, 800))
     typeddict_dump_suite(ctx, ctx.budget(60, 1500))
     policy_layout_suite(ctx, ctx.budget(80, 1500))
-    specs = eng.gen_specs(ctx.budget(160, 2500), 3 if ctx.tier == "quick" else 4, user_leaves=True)
+    specs = eng.gen_specs(ctx.budget(160, 2500), 3 if ctx.tier == "quick" else 4, user_leaves=True, tuple_matrix=True)
     recs = eng.load_records(specs, suite="load", n_valid=2, n_corrupt=3, n_hostile=2)
     for rec in recs:
         rejected = any(o["r"] != "ok" for o in rec.real.values())
@@ -342,7 +342,7 @@ def search(ctx: Ctx):
     policy_layout_suite(ctx, 800)
     eng = morph.Engine(ctx)
     eng.drv = None
-    specs = eng.gen_specs(1500, 4, user_leaves=True)
+    specs = eng.gen_specs(1500, 4, user_leaves=True, tuple_matrix=True)
     for rec in eng.load_records(specs, n_valid=2, n_corrupt=4, n_hostile=3):
         oracle_load(ctx, rec)
 
